@@ -20,9 +20,9 @@ META["C12"] = dict(
 
 META["C10"] = dict(
     design_ref="DESIGN.md section 5, C10",
-    technique="Coq proof by induction over query lists that the stateful stage cursor refines a stateless reference (all stage lists, zero-length stages, any non-decreasing times); shape lemmas proved for any interpolation term with four elementary facts; bit-exact differential correspondence of CalculateStagedRate/CalculateRampRate against the extracted binary64 (Flocq) model, plus primitive-level correspondence of Go float64 ops",
-    text="Theorems C10_cursor_refines(+default_start), C10_selected_stage, C10_chained, C10_zero_after_end, C10_total_duration, C10_ramp_refines, C10_ramp_zero_after hold for the binary64 model as it is. C10_within_targets_partial, C10_monotone_in_stage_partial, C10_ramp_shape_partial are proved for every interpolation term satisfying interp_facts; that the binary64 term satisfies them (and is within 1 of the exact rational value) is checked on every output of the implementation by the extracted predicate interp_ok, not proved.",
-    note="Trusted: Coq kernel + standard real-number/classical axioms that Flocq's definitions carry (listed per theorem in the evidence); extraction + driver; harness. Partial: float-level shape facts (see text). Negative durations and non-monotone query times are outside the statement.",
+    technique="Coq proof by induction over query lists that the stateful stage cursor refines a stateless reference (all stage lists, zero-length stages, any non-decreasing times); shape (within targets, monotone) and closeness (within 1 + 5|delta|/2^53 of the exact rational value) proved for the binary64 interpolation term itself from Flocq's correct-rounding theorems (monotone rounding, relative error 2^-53 per operation); bit-exact differential correspondence of CalculateStagedRate/CalculateRampRate against the extracted binary64 (Flocq) model, plus primitive-level correspondence of Go float64 ops",
+    text="Theorems C10_cursor_refines(+default_start), C10_selected_stage, C10_chained, C10_zero_after_end, C10_total_duration, C10_ramp_refines, C10_ramp_zero_after hold for the binary64 model as it is. C10_within_targets, C10_monotone_in_stage, C10_ramp_shape, C10_close, C10_ramp_close hold for the binary64 term for int64 durations and target differences below 2^53 (f64_exact). C10_interp_ok_sound: every model value satisfies the predicate interp_ok that the harness evaluates on every output of the implementation. C10_within_one_refuted: the literal reading |v - exact| <= 1 is false by a float epsilon on a concrete input (recorded known finding; the excess is bounded by C10_close).",
+    note="Trusted: Coq kernel + standard real-number/classical axioms that Flocq's definitions carry (listed per theorem in the evidence); extraction + driver; harness. Target differences of 2^53 and more are outside the shape/closeness theorems (Go's float64(delta) already rounds them). Negative durations and non-monotone query times are outside the statement.",
 )
 
 META["C13"] = dict(
